@@ -94,7 +94,12 @@ func c20Run(w *W, removals bool) {
 	var its []*iterRec
 	for i := 0; i < nIters; i++ {
 		r := &iterRec{kind: v.name, blocking: v.blocking}
-		r.ctx, r.cancel = context.WithCancel(w.Ctx)
+		if endMode == 0 && simrt.Choose(4) == 0 {
+			// an uncancellable caller (the run ends with Close)
+			r.ctx, r.cancel = context.Background(), func() {}
+		} else {
+			r.ctx, r.cancel = context.WithCancel(w.Ctx)
+		}
 		its = append(its, r)
 		simrt.Spawn("iter:"+v.name, func() {
 			r.task = simrt.Self()
